@@ -23,6 +23,12 @@ SPEC = dict(
           "member) and a pre-existing `<id>_old.zip`; 22 fixed corner names first (8 of them escape when the `../` check is weakened) "
           "and 2 fixed duplicate streams. Observed: the paths handed to backendOpen (= files written) with the file content at "
           "that moment, success, and whether a digest of the whole root outside the snapshots directory is unchanged. "
+          "commit/cancel: members whose name contains BAD are rejected by the recorder standing in for Open + Check; the regular "
+          "files below the snapshots directory after Import are listed (4 fixed streams: rejected member after accepted ones, member "
+          "aimed at the lock file, no export.json, junk header). round trip (3 + n/25 cases): 1..3 REAL snapshot zips of one set, the "
+          "real NewSnapshotExport + StreamTo, the stream parsed back with archive/tar, the real Import under another id with the "
+          "real backendOpen = Open and Reader.Check; compared: the stream's members against the model's export_members, writes, final "
+          "listing; monitored: every exported file reappears under the new id with identical content. "
           "restore: the real backend.Open + Reader.Restore (+ RestoreState.Cleanup / Revert) with the system tar on "
           "generated snapshot zips with 1..3 entries (archive.tgz, user/u1.tgz, user/u2.tgz; userLookup pointed at temp "
           "homes, tar run directly): archives with/without common and the revision directory, extra top-level entries; "
@@ -41,8 +47,9 @@ SPEC = dict(
         "backup names (restoreStateFilename, 9 random characters) modelled as fresh odd names, restoreState2orig as their inverse: the regular expression itself is not modelled",
         "the flat Created/Moved lists of RestoreState are modelled per parent directory (entries restore into pairwise distinct parents)",
     ],
-    assumptions=["PARTIAL: external tar, path.Clean, the zip reader, rename atomicity and the random backup names are modelled, not verified (SHA3 idealised as content identity). Proved over the model: import inside (with contents and duplicates), restore failure/Revert identity, restore success (exact content of every name, C32_restore_success; the monitor predicate success_all is a corollary), mismatch before move, Check iff",
+    assumptions=["PARTIAL: external tar, path.Clean, the zip reader, rename atomicity and the random backup names are modelled, not verified (SHA3 idealised as content identity). Proved over the model: import inside (with contents and duplicates), nothing committed unless every member verifies (invalid member fails, failed import leaves no <id>_*.zip, committed import verified every member), export -> import round trip, restore failure/Revert identity, restore success (exact content of every name, C32_restore_success; the monitor predicate success_all is a corollary), mismatch before move, Check iff",
                  "failure of the second rename inside moveFile cannot be provoked on the real file system as root: covered by the theorem (every failure point), not by the tie",
                  "two entries never share a parent directory (distinct users have distinct homes)",
+                 "import: Open + Reader.Check on the written members are an oracle (m_valid) in the import model; in the round-trip cases they are the real functions",
                  "import: pre-existing symbolic links inside the snapshots directory are outside the model (import itself never creates links or directories)"],
 )
